@@ -25,7 +25,9 @@ Keywords == {<<65, 78, 68>>, <<79, 82>>, <<78, 79, 84>>, <<88, 79, 82>>, <<76, 7
 UpperSeq(s) == [i \in 1 .. Len(s) |-> Upper(s[i])]
 MultiSymbols(kind) == IF kind = "generic" THEN {<<60, 62>>, <<60, 61>>, <<62, 61>>}
                       ELSE {<<60, 61>>, <<62, 61>>, <<60, 62>>, <<33, 61>>, <<62, 62>>, <<60, 60>>}
-                           \cup (IF kind = "expression-custom" THEN {<<45, 62>>, <<61, 62>>, <<45, 45>>, <<45, 61>>} ELSE {})
+                           \cup (IF kind = "expression-custom" THEN {<<45, 62>>, <<61, 62>>, <<45, 45>>, <<45, 61>>, <<46, 46>>} ELSE {})
+\* the token type a multi-character symbol is registered with (the custom tokenizer registers ".." as Special = 13)
+SymType(kind, s) == IF kind = "expression-custom" /\ s = <<46, 46>> THEN 13 ELSE 7
 
 AllDigits(s, a, b) == a <= b /\ \A i \in a .. b : Digit(s[i])
 \* position of the first occurrence of c in s, 0 if none
@@ -70,14 +72,15 @@ WellFormed(kind, cls, s) ==
     [] cls = "dquoted" -> IsQuoted(kind, s, 34)
     [] cls = "comment" -> IsComment(kind, s)
     [] cls = "ws"      -> Len(s) >= 1 /\ \A i \in 1 .. Len(s) : WsChar(s[i])
-    [] cls = "symbol"  -> (Len(s) = 1 /\ (SymbolChar(kind, s[1]) \/ s[1] \in {45, 46, 47})) \/ s \in MultiSymbols(kind)
+    [] cls = "special" -> kind = "expression-custom" /\ s = <<46, 46>>
+    [] cls = "symbol"  -> ~(kind = "expression-custom" /\ s = <<46, 46>>) /\ ((Len(s) = 1 /\ (SymbolChar(kind, s[1]) \/ s[1] \in {45, 46, 47})) \/ s \in MultiSymbols(kind))
     [] OTHER -> FALSE
 
 \* token type the lexeme must be reported with
 TypeOf(kind, cls) ==
   CASE cls = "word" -> 9 [] cls = "keyword" -> 10 [] cls = "integer" -> 4 [] cls = "float" -> 3
     [] cls = "quoted" -> 8 [] cls = "dquoted" -> (IF kind # "generic" THEN 9 ELSE 8)
-    [] cls = "comment" -> 12 [] cls = "ws" -> 11 [] cls = "symbol" -> 7
+    [] cls = "comment" -> 12 [] cls = "ws" -> 11 [] cls = "symbol" -> 7 [] cls = "special" -> 13
 
 \* May lexeme <<c1, s1>> be followed directly by <<c2, s2>>?  (TRUE only when maximal munch cannot join or re-cut them.)
 CanAbut(kind, c1, s1, c2, s2) ==
@@ -88,11 +91,12 @@ CanAbut(kind, c1, s1, c2, s2) ==
        [] c1 \in {"quoted", "dquoted"} -> kind = "generic" \/ b # last
        [] c1 = "comment" -> IF kind = "generic" THEN b \in {10, 13} ELSE TRUE
        [] c1 = "ws" -> ~WsChar(b)
+       [] c1 = "special" -> b # 46
        [] c1 = "symbol" ->
             IF Len(s1) > 1 THEN TRUE
             ELSE /\ (last \in {60, 62, 33, 61} => b \notin {60, 61, 62})
                  /\ (last = 45 => kind # "generic" \/ (~Digit(b) /\ b # 46))
                  /\ (last = 45 /\ kind = "expression-custom" => b \notin {62, 61, 45})
-                 /\ (last = 46 => ~Digit(b))
+                 /\ (last = 46 => ~Digit(b) /\ (kind = "expression-custom" => b # 46))
                  /\ (last = 47 => kind = "generic" \/ b # 42)
 =============================================================================
